@@ -73,6 +73,11 @@ func verifC05RoleConflict() {
 			if isCtl {
 				verifAssert(ncs.nominatedPair == nil, "the-new-controlling-selector-starts-without-a-nomination-in-progress")
 			}
+			// RFC 8445 §7.3.1.1: after a switch the pair priorities are recomputed
+			// (G and D swap), so that both sides keep ordering pairs identically
+			for _, p := range a.checklist {
+				verifAssertKnown(p.iceRoleControlling == after.controlling, "after-a-role-switch-the-listed-pairs-compute-their-priority-for-the-new-role", "C05-pairs-keep-old-role-after-switch", true)
+			}
 		}
 		verifAssert(verifImplies(verifNot(flipped), a.selector == selBefore), "selector-kept-when-role-kept")
 		nSent := after.sent - before.sent
